@@ -67,6 +67,7 @@ type Options struct {
 	Kinds      map[int]string // non-base account kinds
 	VestAmt    int64          // original vesting amount (native) for vesting kinds
 	NativeBal  int64          // per-account native balance
+	NativeBalOf map[int]int64 // per-account override of the native balance
 	Ent        enttypes.Params
 	Wrk        wrkchaintypes.Params
 	Beacon     beacontypes.Params
@@ -149,9 +150,13 @@ func GenesisState(a *app.App, o Options, accts []Acct) []byte {
 	var balances []banktypes.Balance
 	total := sdk.NewCoins()
 	huge := math.NewIntWithDecimal(1, 63) // 10^63 ≈ 2^209
-	for _, ac := range accts {
+	for ai, ac := range accts {
+		nb := o.NativeBal
+		if v, ok := o.NativeBalOf[ai]; ok {
+			nb = v
+		}
 		coins := sdk.NewCoins(
-			sdk.NewCoin(Denom, math.NewInt(o.NativeBal)),
+			sdk.NewCoin(Denom, math.NewInt(nb)),
 			sdk.NewCoin(Denom2, math.NewInt(1_000_000_000_000)),
 			sdk.NewCoin(DenomBig, huge),
 		)
